@@ -70,9 +70,11 @@ def _families():
                            dict(convection_scale=_pm(0.5, 6.0), diffusivity=st.one_of(st.just(0.0), _f(0.001, 0.1)), dispersivity=_pm(0.05, 1.0), hyper_diffusivity=_f(1e-4, 0.02)))  # fmt: skip
     F["KS"] = ("KuramotoSivashinsky", (1, 2, 3), {}, dict(gradient_norm_scale=_pm(0.3, 2.0), second_order_scale=_f(0.5, 1.5), fourth_order_scale=_f(0.5, 1.5)))
     F["NSVort"] = ("NavierStokesVorticity", (2,), {}, dict(diffusivity=_f(0.001, 0.1), vorticity_convection_scale=_pm(0.3, 2.0), drag=st.one_of(st.just(0.0), _f(-0.5, 0.2))))
-    F["KolmVort"] = ("KolmogorovFlowVorticity", (2,), {}, dict(diffusivity=_f(0.001, 0.1), convection_scale=_pm(0.3, 2.0), drag=st.one_of(st.just(0.0), _f(-0.5, 0.2)), injection_scale=_pm(0.2, 2.0), injection_mode="MODE"))
+    # forcing amplitudes: O(1), and occasionally tiny ones (the response is linear in gamma; nothing may treat a small gamma as "no forcing")
+    _INJ = st.one_of(_pm(0.2, 2.0), _pm(0.2, 2.0), _pm(0.2, 2.0), st.tuples(gens.log_floats(1e-13, 1e-6), st.sampled_from([1.0, -1.0])).map(lambda t: float("%.4g" % (t[0] * t[1]))))
+    F["KolmVort"] = ("KolmogorovFlowVorticity", (2,), {}, dict(diffusivity=_f(0.001, 0.1), convection_scale=_pm(0.3, 2.0), drag=st.one_of(st.just(0.0), _f(-0.5, 0.2)), injection_scale=_INJ, injection_mode="MODE"))
     F["NSVel"] = ("NavierStokesVelocity", (3,), {}, dict(diffusivity=_f(0.001, 0.1), drag=st.one_of(st.just(0.0), _f(-0.5, 0.2))))
-    F["KolmVel"] = ("KolmogorovFlowVelocity", (3,), {}, dict(diffusivity=_f(0.001, 0.1), drag=st.one_of(st.just(0.0), _f(-0.5, 0.2)), injection_scale=_pm(0.2, 2.0), injection_mode="MODE"))
+    F["KolmVel"] = ("KolmogorovFlowVelocity", (3,), {}, dict(diffusivity=_f(0.001, 0.1), drag=st.one_of(st.just(0.0), _f(-0.5, 0.2)), injection_scale=_INJ, injection_mode="MODE"))
     F["Fisher"] = ("FisherKPP", (1, 2, 3), {}, dict(diffusivity=_f(0.001, 0.1), reactivity=_f(0.2, 3.0)))
     F["AllenCahn"] = ("AllenCahn", (1, 2, 3), {}, dict(diffusivity=_f(0.001, 0.1), first_order_coefficient=_f(0.2, 2.0), third_order_coefficient=_f(-2.0, -0.2)))
     F["CahnHilliard"] = ("CahnHilliard", (1, 2, 3), {}, dict(diffusivity=_f(0.001, 0.05), gamma=_f(1e-4, 1e-2), first_order_coefficient=_f(-2.0, -0.2), third_order_coefficient=_f(0.2, 2.0)))
@@ -84,7 +86,7 @@ def _families():
     F["GenPoly3"] = ("GeneralPolynomialStepper", (1, 2, 3), dict(dealiasing_fraction=0.5), dict(linear_coefficients=_lin_coefs(), polynomial_coefficients=st.tuples(gens.coef(-0.5, 0.5), st.just(0.0), gens.coef(-1, 1), _f(-2.0, -0.2)).map(list)))
     F["GenNonlin"] = ("GeneralNonlinearStepper", (1, 2, 3), {}, dict(linear_coefficients=_lin_coefs(), nonlinear_coefficients=st.tuples(st.one_of(st.just(0.0), _pm(0.1, 1.0)), st.one_of(st.just(0.0), _pm(0.2, 2.0)), st.one_of(st.just(0.0), _pm(0.2, 2.0))).map(list)))
     F["GenVort"] = ("GeneralVorticityConvectionStepper", (2,), {}, dict(linear_coefficients=_lin_coefs(), vorticity_convection_scale=_pm(0.3, 2.0)))
-    F["GenVortInj"] = ("GeneralVorticityConvectionStepper", (2,), {}, dict(linear_coefficients=_lin_coefs(), vorticity_convection_scale=_pm(0.3, 2.0), injection_scale=_pm(0.2, 2.0), injection_mode="MODE"))
+    F["GenVortInj"] = ("GeneralVorticityConvectionStepper", (2,), {}, dict(linear_coefficients=_lin_coefs(), vorticity_convection_scale=_pm(0.3, 2.0), injection_scale=_INJ, injection_mode="MODE"))
     return F
 
 
